@@ -787,6 +787,33 @@ impl WorkerState for W {
                             return Outcome::fail(format!("refused-valid-library:after-a-refused-add:{kind}"), e);
                         }
                     }
+                    // the same for a type whose own registration was refused because its name is taken: it is not
+                    // registered afterwards (a function mentioning it is refused) and can be registered under a
+                    // free name
+                    {
+                        let mut rt = Runtime::new();
+                        let taken = Type::clone::<Val<Mk<43>>>("String", "", location!()).map_err(|e| format!("{e}")).and_then(|t| rt.add(t).map_err(|e| format!("{e}")));
+                        if taken.is_ok() {
+                            return Outcome::fail("accepted-invalid-library:type-named-like-a-primitive", "a registered type named \"String\" was accepted at the root".to_string());
+                        }
+                        let f = Function::new("early43", "", vec!["x"], |_x: Val<Mk<43>>| -> i32 { 5 }, location!()).map_err(|e| format!("{e}"));
+                        if let Ok(f) = f {
+                            if rt.add(f).is_ok() {
+                                return Outcome::fail("accepted-invalid-library:after-a-refused-add", "a function mentioning a type whose registration was refused (name taken) was accepted: the type counts as registered".to_string());
+                            }
+                        }
+                        let late = Type::clone::<Val<Mk<43>>>("Late43", "", location!()).map_err(|e| format!("{e}")).and_then(|t| rt.add(t).map_err(|e| format!("{e}")));
+                        if let Err(e) = late {
+                            return Outcome::fail("refused-valid-library:after-a-refused-add:3", format!("the registration of a Rust type under the taken name \"String\" was refused; registering it under the free name \"Late43\" afterwards is refused too: {e}"));
+                        }
+                        let f = Function::new("late43", "", vec!["x"], |_x: Val<Mk<43>>| -> i32 { 5 }, location!()).map_err(|e| format!("{e}")).and_then(|f| rt.add(f).map_err(|e| format!("{e}")));
+                        if let Err(e) = f {
+                            return Outcome::fail("refused-valid-library:after-a-refused-add:3", format!("Late43 is registered, but a function mentioning it is refused: {e}"));
+                        }
+                        if let Err(e) = host::compile(&rt, "fn t(x: Late43) -> i32 { late43(x) }") {
+                            return Outcome::fail("refused-valid-library:after-a-refused-add:3", format!("the script that uses the late registration does not compile:\n{e}"));
+                        }
+                    }
                     let mut o = Outcome::pass();
                     o.nontrivial = true;
                     o.hash = fnv(b"refused-then-registered");
